@@ -1042,3 +1042,140 @@ def roundtrip(fmt: Fmt, spec: Any) -> tuple[str, str, Any] | None:
         n = next((i for i, (a, b) in enumerate(zip(out1, out2)) if a != b), min(len(out1), len(out2)))
         return ('regen-diff', 'bytes', {'first_difference_offset': n, 'first': repr(out1[max(0, n - 30):n + 30]), 'second': repr(out2[max(0, n - 30):n + 30])})
     return None
+
+
+# ------------------------------------------------------------------------------------------------ observer effect
+# A writer must not depend on whether somebody LOOKED at the value before: lazily created attributes (Sound.stack_start stores an
+# empty block on first read, Entry.data parses the blob on first read), caches, repr().  `observe` reads every property of every
+# srctools object reachable from a value (and calls repr / bool / len on it); `observer_check` compares what is written with and
+# without that, for a freshly built value and for the value read back from the first output, and writes the same object twice.
+
+def _children(o: Any) -> list:
+    if isinstance(o, (list, tuple, set, frozenset)):
+        return list(o)
+    if isinstance(o, dict):
+        return list(o.values())
+    if type(o).__module__.split('.')[0] != 'srctools' or isinstance(o, type):
+        return []
+    out = []
+    names: list[str] = []
+    for k in type(o).__mro__:
+        sl = k.__dict__.get('__slots__', ())
+        names += [sl] if isinstance(sl, str) else list(sl)
+    names += list(getattr(o, '__dict__', {}))
+    for n in names:
+        try:
+            out.append(object.__getattribute__(o, n))
+        except AttributeError:
+            pass
+    return out
+
+
+def reachable(o: Any, limit: int = 4000) -> list:
+    """srctools objects reachable from a value, in a deterministic order."""
+    seen: set[int] = set()
+    out = []
+    todo = [o]
+    while todo and len(seen) < limit:
+        x = todo.pop()
+        if id(x) in seen or isinstance(x, (str, bytes, int, float, bool, type(None))):
+            continue
+        seen.add(id(x))
+        if type(x).__module__.split('.')[0] == 'srctools' and not isinstance(x, type):
+            out.append(x)
+        todo.extend(reversed(_children(x)))
+    return out
+
+
+def observable_names(o: Any) -> list[str]:
+    import functools
+    import enum
+    if isinstance(o, enum.Enum):
+        return []
+    names = []
+    for n in dir(type(o)):
+        if n.startswith('__'):
+            continue
+        try:
+            d = inspect_static(type(o), n)
+        except AttributeError:
+            continue
+        if isinstance(d, (property, functools.cached_property)):
+            names.append(n)
+    for n in ('__repr__', '__bool__', '__len__'):
+        if getattr(type(o), n, None) is not None and getattr(type(o), n) is not getattr(object, n, None):
+            names.append(n)
+    return names
+
+
+def inspect_static(cls: type, name: str) -> Any:
+    import inspect
+    return inspect.getattr_static(cls, name)
+
+
+def observe(obj: Any, only: tuple[str, str] | None = None) -> list[tuple[str, str]]:
+    """Read every property (and repr / bool / len) of every reachable srctools object; exceptions of a getter are ignored (the
+    observer is a bystander).  Returns the (class, name) pairs read.  only = restrict to one pair."""
+    done = []
+    for o in reachable(obj):
+        for n in observable_names(o):
+            key = (type(o).__name__, n)
+            if only is not None and key != only:
+                continue
+            try:
+                if n == '__repr__':
+                    repr(o)
+                elif n == '__bool__':
+                    bool(o)
+                elif n == '__len__':
+                    len(o)
+                else:
+                    getattr(o, n)
+            except Exception:
+                pass
+            if key not in done:
+                done.append(key)
+    return done
+
+
+def observer_check(fmt: 'Fmt', spec: Any) -> tuple[str, str, Any] | None:
+    """None if looking at the value never changes what is written; else (stage, detail, info):
+    observer-effect:<Class.prop>:built / :read-back, or same-object-rewrite-diff."""
+    try:
+        a = fmt.build(spec)
+        out_a = fmt.write(a)
+    except Exception:
+        return None                       # the plain round trip reports these
+    try:
+        if fmt.write(a) != out_a:
+            return ('same-object-rewrite-diff', 'built', {'what': 'writing the same object twice gives two different files'})
+    except Exception as e:
+        return ('same-object-rewrite-error', type(e).__name__, repr(e)[:300])
+
+    def culprit(make) -> str:
+        pairs = observe(make())
+        for p in pairs:
+            o = make()
+            observe(o, only=p)
+            try:
+                if fmt.write(o) != out_a:
+                    return f'{p[0]}.{p[1]}'
+            except Exception:
+                return f'{p[0]}.{p[1]}'
+        return 'several-reads'
+    for stage, make in (('built', lambda: fmt.build(spec)), ('read-back', lambda: fmt.read(out_a))):
+        try:
+            b = make()
+        except Exception:
+            return None
+        observe(b)
+        try:
+            out_b = fmt.write(b)
+        except Exception as e:
+            return ('observer-effect', f'{culprit(make)}:{stage}', {'what': f'after reading its properties the value cannot be written: {e!r}'[:300]})
+        if out_b != out_a:
+            n = next((i for i, (x, y) in enumerate(zip(out_a, out_b)) if x != y), min(len(out_a), len(out_b)))
+            return ('observer-effect', f'{culprit(make)}:{stage}',
+                    {'what': 'the written file differs when the properties of the value were read first', 'first_difference_offset': n,
+                     'untouched': repr(out_a[max(0, n - 40):n + 60]), 'looked_at': repr(out_b[max(0, n - 40):n + 60])})
+    return None
